@@ -18,6 +18,7 @@ Energy boundedness, the observed factor four and the size of the reversibility d
 from __future__ import annotations
 
 import ast
+import re
 from fractions import Fraction
 
 from ..core import AnalysisError, dotted, norm_src
@@ -56,6 +57,46 @@ def _point(fn_local, t, q):
     return None
 
 
+def mass_matrix_refreshed(ctx, rule="C19.R7"):
+    from ..model import guards_of
+    rep = ctx.rep
+    rel = "cardillo/solver/rattle.py"
+    fn = ctx.repo.maybe(rel, "Rattle.solve")
+    C = f"{rel}:Rattle.solve"
+    if fn is None:
+        rep.ok(rule, C, "Rattle.solve not found (no verdict)", verdict="unknown", trivial=True)
+        return
+    sts = [w for w in ast.walk(fn) if isinstance(w, ast.Assign) and any(norm_src(t) == "self.Mn" for t in w.targets)]
+    if not sts:
+        rep.bad(rule, C, fn.name, "the step loop never re-evaluates self.Mn: the mass matrix stays the one of the initial configuration", f"{rel}:{fn.lineno}")
+        return
+    for st in sts:
+        gs = [(t, pol) for (t, pol) in guards_of(st, fn)]
+        binds = {w.targets[0].attr: norm_src(w.value) for f in getattr(fn, "_parent").body if isinstance(f, ast.FunctionDef) for w in ast.walk(f)
+                 if isinstance(w, ast.Assign) and len(w.targets) == 1 and isinstance(w.targets[0], ast.Attribute) and dotted(w.targets[0].value) == "self"}
+        bad = None
+        for (t, pol) in gs:
+            txt = t
+            m_ = re.fullmatch(r"(not )?self\.(\w+)", t.strip())
+            if m_ and m_.group(2) in binds:
+                txt = ("not (" if m_.group(1) else "(") + binds[m_.group(2)] + ")"
+                if not pol:
+                    txt = "not " + txt
+            # acceptable: refresh exactly when some mass part varies:  np.any(I_M)  /  skip when  not np.any(I_M)
+            norm_ = txt.replace(" ", "")
+            if "np.any(" in norm_ and "I_M" in norm_ and "np.all(" not in norm_:
+                continue
+            if "reuse" in norm_ or "options" in norm_:
+                continue
+            bad = (t, txt)
+        if bad:
+            rep.bad(rule, C, st, f"`{norm_src(st)[:60]}` is skipped under `{bad[0]}` (= `{bad[1][:60]}`), which is not 'no contribution has a configuration-dependent mass matrix': with one constant "
+                    "and one variable mass part the matrix is frozen at M(q0) and used in both stages - the step is not the adjoint composition any more (order one, drift, not reversible)",
+                    f"{rel}:{st.lineno}")
+        else:
+            rep.ok(rule, C, f"`{norm_src(st)[:60]}`" + (" is unconditional" if not gs else f" under `{gs[-1][0][:40]}`"))
+
+
 def compliance_point(ctx, rule="C19.R6"):
     """RATTLE's symmetry: stage 1 uses the forces at (t_n, q_n), stage 2 those at (t_{n+1}, q_{n+1}).  In compliance form the spring force is the
     unknown la_c fixed by c(t, q, u, la_c) = 0; enforcing that equation at the END of the step in stage 1 makes stage 1 apply
@@ -88,6 +129,8 @@ def compliance_point(ctx, rule="C19.R6"):
 
 def run(ctx):
     rep = ctx.rep
+    rep.rule("C19.R7", "RATTLE re-evaluates the mass matrix at the new configuration in every step (self.Mn = system.M(tn1, qn1)) - unconditionally, or skipped only when NO contribution has a configuration-dependent mass matrix (not np.any(I_M)); stage 1, the stage-2 matrix and its right-hand side all use it", 1)
+    mass_matrix_refreshed(ctx)
     rep.rule("C19.R6", "stage 1: the compliance law c(t, q, u, la_c) that defines the force unknowns la_c is evaluated at the point (t, q) at which stage 1 evaluates its other forces h (start of the step): a force element in compliance form is the same force as in force form, evaluated at the same point", 1)
     compliance_point(ctx)
     rep.rule("C19.R5", "RATTLE's stage-1 Newton solves run with the solver's configured options: order, drift and reversibility hold 'up to the nonlinear-solver tolerance' the caller asked for, not up to fsolve's default 1e-6", 1)
@@ -390,4 +433,13 @@ NEUTRAL += [
 MUTANTS += [
     dict(id="c19-r6-seed", canary=True, what="[seeded by sub-agent] Rattle stage 1 enforces the compliance law at the end of the step (tn1, qn1)", file='cardillo/solver/rattle.py',
          old="        R[self.split_x1[1] : self.split_x1[2]] = self.system.c(tn, qn, un12, la_c1)\n", new="        R[self.split_x1[1] : self.split_x1[2]] = self.system.c(tn1, qn1, un12, la_c1)\n", expect="C19.R6"),
+]
+
+MUTANTS += [
+    dict(id="c19-r7-seed", canary=True, what="[seeded by sub-agent] Rattle skips the refresh of the mass matrix unless ALL mass contributions are configuration dependent (not np.all(I_M))", file='cardillo/solver/rattle.py',
+         old='            self.Mn = self.system.M(tn1, qn1, format="csr")\n', new='            if np.all(self.system.I_M):\n                self.Mn = self.system.M(tn1, qn1, format="csr")\n', expect="C19.R7"),
+]
+NEUTRAL += [
+    dict(id="c19-n-r7", canary=True, what="Rattle refreshes the mass matrix only if some contribution has a configuration-dependent one (np.any(I_M))", file='cardillo/solver/rattle.py',
+         old='            self.Mn = self.system.M(tn1, qn1, format="csr")\n', new='            if np.any(self.system.I_M):\n                self.Mn = self.system.M(tn1, qn1, format="csr")\n'),
 ]
